@@ -30,6 +30,10 @@ desc = {
  "dd_guard_leaks_on_timeout": "every fifth wait-for guard does not remove its edge",
  "dd_panic_under_lock": "deadlock panic raised while the graph lock is held (poisoned lock)",
  "kill_through_mailbox_when_idle": "kill() on an empty mailbox sends a graceful stop instead",
+ "revert_fix_c03_late_push": "the C03 repair (fbc99f1) reverted: ask waits on the reply channel only",
+ "revert_fix_c17_blocking_late_push": "the C17 repair (00c33fa) reverted: blocking_ask(None) waits with blocking_recv only",
+ "revert_fix_c06_kill_then_drop": "the C06 repair (3d0cca7) reverted: the graceful arm ignores a kill signal that is already waiting",
+ "dd_check_then_insert_two_locks": "deadlock detection checks for a cycle and inserts the edge under two separate lock acquisitions (check-then-act race, only visible on real threads)",
 }
 out = []
 out.append("| own mutant (mutants/*.diff) | change | caught by (quick tier) | run but silent |")
@@ -59,7 +63,7 @@ for name in sorted(os.listdir(os.path.join(V, "seeded"))):
         (caught if v["verdict"] == "caught" else missed).append(k.split(":")[0] + (f" ({sig})" if sig and v["verdict"] == "caught" else ""))
     summ = (m.get("summary") or "").replace("\n", " ").replace("|", "/")
     need = (m.get("needs_to_manifest") or "").replace("\n", " ").replace("|", "/")
-    out.append(f"| {name} | {m.get('breaks_property')} | {summ[:220]} — needs: {need[:200]} | {', '.join(caught) or '-'} | {', '.join(missed) or '-'} | {m.get('note', '')} |")
+    out.append(f"| {name} | {m.get('breaks_property')} | {summ[:220]} — needs: {need[:200]} | {', '.join(caught) or '-'} | {', '.join(missed) or '-'} | {m.get('note', '')}{' [rebased onto the fix commits]' if str(m.get('rebased', '')).startswith('patch.diff is') else (' [applied to ' + m['base_commit'] + ']' if m.get('base_commit') else '')} |")
 text = "\n".join(out)
 import sys
 if "--update" in sys.argv:
